@@ -149,12 +149,20 @@ Definition single_lines (evs : list event) : list drec :=
 
 Definition err_unknown_display : N := 20.
 
+(** the proto handler prints every message until the stream ends or fails *)
+Fixpoint proto_run (rs : list resp) : list drec * outcome unit :=
+  match rs with
+  | [] => ([], Ok tt)
+  | RFail :: _ => ([], Err err_stream)
+  | _ :: rest => let r := proto_run rest in (DRProto :: fst r, snd r)
+  end.
+
 (** cli.QueryDisplay on a scripted response stream.  Poll: [Count = 1]. *)
 Definition query_display (jv : string -> bool) (dt : dtype) (qt : qtype) (with_ts : bool)
   (rs : list resp) : list drec * outcome unit :=
   match dt with
   | DUnknown => ([], Err err_unknown_display)
-  | DProto => (map (fun _ => DRProto) rs, Ok tt)
+  | DProto => proto_run rs
   | DSingle =>
       let '(evs, _, o) := run jv qt false rs in (single_lines evs, o)
   | DGroup =>
